@@ -151,16 +151,17 @@ func (k *ckptKeys) pub(kind string) crypto.PublicKey {
 }
 
 type ckptRun struct {
-	o      *Opts
-	r      *Rand
-	t      *Trace
-	s      *Stats
-	fails  []OracleFailure
-	search bool
-	keys   *ckptKeys
-	keys2  *ckptKeys
-	signed map[string][]ckptTuple // key kind+seed -> tuples signed so far
-	clock  int64
+	sampled map[string]bool
+	o       *Opts
+	r       *Rand
+	t       *Trace
+	s       *Stats
+	fails   []OracleFailure
+	search  bool
+	keys    *ckptKeys
+	keys2   *ckptKeys
+	signed  map[string][]ckptTuple // key kind+seed -> tuples signed so far
+	clock   int64
 }
 
 func (c *ckptRun) fail(sig, detail string, cs ckptCase) {
@@ -168,6 +169,17 @@ func (c *ckptRun) fail(sig, detail string, cs ckptCase) {
 		c.fails = append(c.fails, OracleFailure{Property: "C11", Signature: sig, Detail: detail, Case: cs})
 	}
 	c.s.Count("oracle-fail/" + sig)
+}
+
+// sample records the first case of every kind as an evidence sample.
+func (c *ckptRun) sample(kind string, v any) {
+	if c.sampled == nil {
+		c.sampled = map[string]bool{}
+	}
+	if !c.sampled[kind] && len(c.sampled) < 5 {
+		c.sampled[kind] = true
+		c.s.Sample(map[string]any{"kind": kind, "case": v})
+	}
 }
 
 func (c *ckptRun) line(format string, a ...any) {
@@ -328,7 +340,9 @@ func ckptOpenErrClass(err error) string {
 
 // ---------------------------------------------------------------- oracles around one (msg, sig)
 
-func (c *ckptRun) signedKey(kind string, k *ckptKeys) string { return fmt.Sprintf("%s/%d", kind, k.seed) }
+func (c *ckptRun) signedKey(kind string, k *ckptKeys) string {
+	return fmt.Sprintf("%s/%d", kind, k.seed)
+}
 
 func (c *ckptRun) wasSigned(kind string, k *ckptKeys, t ckptTuple) bool {
 	for _, x := range c.signed[c.signedKey(kind, k)] {
@@ -374,6 +388,11 @@ func (c *ckptRun) acceptedTuple(via, kind string, k *ckptKeys, name string, msg,
 func (c *ckptRun) checkVerify(kind string, k *ckptKeys, name string, msg, sig []byte, class string, expectAccept int) bool {
 	cs := ckptCase{Kind: "verify", KeySeed: k.seed, KeyKind: kind, Name: hex.EncodeToString([]byte(name)), Msg: hex.EncodeToString(msg),
 		Sig: hex.EncodeToString(sig), Signed: c.signed[c.signedKey(kind, k)], What: class}
+	if class != "genuine" {
+		cs2 := cs
+		cs2.Signed = nil
+		c.sample("verify:"+class, cs2)
+	}
 	v, err := sunlight.NewRFC6962Verifier(name, k.pub(kind))
 	if err != nil {
 		c.s.Count("verify/constructor-refused")
@@ -449,6 +468,7 @@ func (c *ckptRun) setClock(now int64) {
 func (c *ckptRun) signCase(k *ckptKeys, name string, n, ts int64, root [32]byte, class string) *ckptSigned {
 	cs := ckptCase{Kind: "sign", KeySeed: k.seed, KeyKind: "ecdsa", Name: hex.EncodeToString([]byte(name)), N: n, TS: ts, Root: hex.EncodeToString(root[:]), What: class}
 	cfg := c.config(k, name)
+	c.sample("sign", cs)
 	c.s.Eval(fmt.Sprintf("sign/%s/%d/%d/%x", name, n, ts, root[:4]), true)
 	var out []byte
 	var err error
